@@ -103,6 +103,11 @@ func (w *World) TaintFrom(scope []*ssa.Function, isSource func(ssa.Value) bool) 
 	for iter := 0; changed && iter < 60; iter++ {
 		changed = false
 		for _, fn := range scope {
+			for _, prm := range fn.Params {
+				if isSource(prm) {
+					is(prm, "source")
+				}
+			}
 			for _, b := range fn.Blocks {
 				for _, in := range b.Instrs {
 					if v, ok := in.(ssa.Value); ok && isSource(v) {
